@@ -46,7 +46,7 @@ def kani_cmd(features, harness_fqs, json_path, timeout_s, extra=()):
     cmd = ["cargo", "kani"]
     if features == "plain":
         cmd.append("--no-default-features")
-    cmd += ["-Z", "function-contracts", "-Z", "stubbing", "-Z", "unstable-options"]
+    cmd += ["-Z", "function-contracts", "-Z", "stubbing", "-Z", "unstable-options", "--default-unwind", "16"]
     cmd += list(extra)
     if json_path:
         cmd += ["-j", str(JOBS), "--output-format", "terse", "--harness-timeout", "%ds" % timeout_s,
@@ -356,7 +356,7 @@ def write_and_exit(pid, tier, seed, t0, P, harnesses, results, vres, undecided, 
         c = r.get("counts") or {}
         n = r.get("nchecks") or 0
         ok = (c.get("ok", 0) + c.get("ignored", 0)) if c else 0
-        passed = r.get("status") in ("Success", "Failure") and not [f for f in r["failed"]]
+        passed = r.get("status") in ("Success", "Failure") and n > 0 and not [f for f in r["failed"]]
         entry = {"harness": h.id, "features": feats, "functions": h.fn, "obligation": h.obligation, "strength": h.strength,
                  "backend": "Kani 0.68 / CBMC 6.11 / %s" % (r.get("solver") or "?"), "cbmc_checks": n, "cbmc_checks_discharged": ok,
                  "unreachable_checks": c.get("unreachable", 0), "ignored_nan_checks": c.get("ignored", 0),
